@@ -195,6 +195,10 @@ class LenInterp(Interp):
             r = as_region(self, st, a) if isinstance(a, (VRegion, VRef)) else None
             if r is not None and not r.mut:
                 regs.append(r)
+            elif isinstance(a, (VAdt, VTuple)):
+                for r2 in regions_in(a):
+                    if not r2.mut:
+                        regs.append(r2)
         cursor_self = None
         for a in args:
             if isinstance(a, VRef):
@@ -205,9 +209,28 @@ class LenInterp(Interp):
         sp = self.cur_sp
         callee_path = callee_body["path"] if callee_body is not None else None
 
+        only_slice = False
+        if callee_path is not None:
+            ls = (self.summaries.get(callee_path) or {}).get("__lensrc__")
+            slice_idx = None
+            adt = self.F.adts.get("len_source::LenSource")
+            if adt:
+                for i_, v_ in enumerate(adt["variants"]):
+                    if v_["name"] == "Slice":
+                        slice_idx = i_
+            if ls is not None and set(ls) == {slice_idx}:
+                only_slice = True
+
         def k2(st2, val):
             if len(regs) == 1:
                 for le in find_lenerrs(self, st2, val):
+                    if only_slice and isinstance(le.fields[2], VAdt) and le.fields[2].variant is None:
+                        try:
+                            da = self.discr_atom(le.fields[2])
+                            st2.add_ge0(Lin.atom(da).scale(-1) + self.discr_of_variant("len_source::LenSource", slice_idx))
+                            st2.add_ge0(Lin.atom(da) - self.discr_of_variant("len_source::LenSource", slice_idx))
+                        except Exception:
+                            pass
                     lso = le.fields[4]
                     if isinstance(lso, VInt):
                         a = lso.lin.single_atom()
@@ -297,8 +320,26 @@ class LenInterp(Interp):
                                                                                show_lin(r.off), show_lin(expected)))
             else:
                 rec["expected"] = None
-            # len-source: a non-Slice source may only be attached when the region was cut by a wire field
+            # len-source override: the callee's own source may only be replaced when it was `Slice`
             src = le.fields[2]
+            tsrc = tag["src"]
+            from .loops import same_value
+            if isinstance(src, VAdt) and isinstance(tsrc, VAdt) and not same_value(src, tsrc):
+                okk = False
+                if tsrc.variant is not None:
+                    okk = variant_name(self, "len_source::LenSource", tsrc.variant) == "Slice"
+                else:
+                    try:
+                        da = self.discr_atom(tsrc)
+                        adt = self.F.adts.get("len_source::LenSource")
+                        sidx = [i_ for i_, v_ in enumerate(adt["variants"]) if v_["name"] == "Slice"][0]
+                        dv = self.discr_of_variant("len_source::LenSource", sidx)
+                        okk = st.holds(("eq", Lin.atom(da) - dv))
+                    except Exception:
+                        okk = False
+                if not okk:
+                    rec["problems"].append("len_source reported by %s is replaced although it may already name a header "
+                                           "length field (override must be limited to LenSource::Slice)" % tag["callee"])
             if isinstance(src, VAdt) and src.variant is not None and src is not tag["src"]:
                 name = variant_name(self, "len_source::LenSource", src.variant)
                 rec["len_source_set"] = name
